@@ -412,6 +412,13 @@ fn random_history(t: &mut Tape, gates: &Gates) -> Vec<Note> {
                 };
                 docs[u].push(if t.flag() { format!("{}{}", body, text) } else { body });
             }
+            // a lone carriage return inside a comment (same line as what follows, or lines before it):
+            // not a line end for the tool, whatever it is for an editor - the server and the command
+            // line must still name the same place
+            if t.ratio(1, 10) {
+                let lead = *t.pick(&["(* a\rb *) ", "(* x\ry *)\n", "(* one\rtwo\rthree *)\n\n", "(*\r*)", "(* \r\n \r *) "]);
+                docs[u].push(format!("{}{}", lead, text));
+            }
             // a text that begins with U+FEFF (an editor that passes the byte-order mark of the file
             // through): whatever the server makes of it, it makes the same of it in every notification
             if t.ratio(1, 12) {
